@@ -22,6 +22,12 @@ for d in sorted(glob.glob(os.path.join(ROOT, "seeded", "*"))):
     if not c:
         conf = "own change (reverts a repair), not from a sub-agent"
     # "superseded": the change no longer manifests / applies because a later repair of the repository changed the code it lives in
+    oc = m.get("other_check") or {}
+    if not m.get("detected_by_check") and oc.get("detected"):
+        ok = ", ".join(sorted(set(k.split(":")[0] for k in oc.get("violation_keys", []))))
+        m["superseded"] = None
+        rows.append("| %s | %s | %s | %s | %s |" % (os.path.basename(d), m.get("property", ""), summ, conf, "by the %s check (its trigger lies outside what %s quantifies over): %s" % (oc["property"], m.get("property"), ok)))
+        continue
     caught = ("yes: " + keys) if m.get("detected_by_check") else ("no longer applicable: " + m["superseded"]) if m.get("superseded") else "**no**"
     rows.append("| %s | %s | %s | %s | %s |" % (os.path.basename(d), m.get("property", ""), summ, conf, caught))
 p = os.path.join(ROOT, "DESIGN.md")
